@@ -42,13 +42,20 @@ def make_case(rng, B, kind, overfill=None):
     kw = gen_gqr_kwargs(rng, B, feasible=True, overfill=(rng.random() < 0.5) if overfill is None else overfill)
     if kw is None:
         return OptCase(B, "qr")
-    return OptCase(B, "gqr", gqr=kw)
+    meta = {}
+    if kw["constraint_option"] in ("exact_n", "predetermined") and rng.random() < 0.4:
+        meta["omit_all_sensors"] = True          # optional keyword left out
+    if rng.random() < 0.3:
+        meta["np_ints"] = 64
+    return OptCase(B, "gqr", gqr=kw, meta=meta)
 
 
 def unique_upto(ctx, case, res):
     J = greedy.judge_batch(ctx, [(case, res)])[0]
-    if not J.domain or J.verdicts is None or J.rejected_step is not None:
+    if not J.domain or J.verdicts is None:
         return 0
+    # (a base run that the exact model rejects is C03–C06's finding; the pair is still compared: the relation is between two
+    # runs of the real code, and the exact candidate norms along the real trace still say where ties are)
     k = 0
     for v in J.verdicts:
         if not v["uniq"] or v["n2"] == 0:
@@ -76,18 +83,23 @@ def orthogonal(rng, m):
     return Q, kind
 
 
+def carry(case):
+    """the transformed instance is called the same way (same optional keywords, same argument types); its object history is its own"""
+    return {k: v for k, v in case.meta.items() if k in ("omit_all_sensors", "np_ints")}
+
+
 def transform_case(rng, case, tkind):
     """returns (transformed case, function mapping base ranking → expected transformed ranking, description)"""
     B = case.B
     n, m = B.shape
     if tkind == "orth":
         Q, k = orthogonal(rng, m)
-        c2 = OptCase(B @ Q, case.kind, costs=case.costs, gqr=dict(case.gqr))
+        c2 = OptCase(B @ Q, case.kind, costs=case.costs, gqr=dict(case.gqr), meta=carry(case))
         return c2, (lambda r: r), {"transform": k, "Q": Q.tolist()}
     if tkind == "scale":
         # no magnitude is special: half of the factors are far from 1
         a = 2.0 ** (rng.choice([-3, -2, -1, 1, 2, 3, 4]) if rng.random() < 0.5 else rng.choice([-70, -60, -52, -40, 40, 60]))
-        c2 = OptCase(B * a, case.kind, costs=None if case.costs is None else case.costs * a, gqr=dict(case.gqr))
+        c2 = OptCase(B * a, case.kind, costs=None if case.costs is None else case.costs * a, gqr=dict(case.gqr), meta=carry(case))
         return c2, (lambda r: r), {"transform": "scale", "factor": a}
     # relabel sensors: new sensor i is old sensor pi[i]
     pi = list(range(n)); rng.shuffle(pi)
@@ -98,7 +110,7 @@ def transform_case(rng, case, tkind):
     if g:
         g["idx_constrained"] = np.array(sorted(inv[o] for o in g["idx_constrained"]), dtype=int)
         g["all_sensors"] = np.array([inv[o] for o in g["all_sensors"]], dtype=int)
-    c2 = OptCase(B[pi, :], case.kind, costs=None if case.costs is None else case.costs[pi], gqr=g)
+    c2 = OptCase(B[pi, :], case.kind, costs=None if case.costs is None else case.costs[pi], gqr=g, meta=carry(case))
     return c2, (lambda r: [inv[o] for o in r]), {"transform": "relabel", "pi": pi}
 
 
